@@ -69,32 +69,32 @@ theorem done_order_invariant {l₁ l₂ : List Bool} (h : l₁.Perm l₂) : done
 /-- With the side effect of `g.Done()` (nameOf re-qualifies named types = invokes NewImport closures) and the
 early return: in a table built by the requests made so far, consulting the generators in any order returns the
 same answer and leaves the import table unchanged. -/
-theorem done_effects_order_invariant {unv full : String → String} {t₀ t : Table} {history : List Req}
-    {as : List String} (hrun : run unv full t₀ history = some (t, as))
+theorem done_effects_order_invariant {unv full : String → String} {sfx : String → Nat → String} {t₀ t : Table} {history : List Req}
+    {as : List String} (hrun : run unv full sfx t₀ history = some (t, as))
     {gs₁ gs₂ : List GenDone} (hp : gs₁.Perm gs₂) (hreq : ∀ g ∈ gs₁, ∀ r ∈ g.reqs, r ∈ history) :
-    doneLoopM unv full t gs₁ = doneLoopM unv full t gs₂ ∧
-      doneLoopM unv full t gs₁ = some (t, doneLoop (gs₁.map (·.answer))) := by
+    doneLoopM unv full sfx t gs₁ = doneLoopM unv full sfx t gs₂ ∧
+      doneLoopM unv full sfx t gs₁ = some (t, doneLoop (gs₁.map (·.answer))) := by
   have hs := run_settles hrun
-  have h1 := doneLoopM_settled (unv := unv) (full := full) (t := t) (gs := gs₁)
+  have h1 := doneLoopM_settled (unv := unv) (full := full) (sfx := sfx) (t := t) (gs := gs₁)
     (fun g hg r hr => hs r (hreq g hg r hr))
-  have h2 := doneLoopM_settled (unv := unv) (full := full) (t := t) (gs := gs₂)
+  have h2 := doneLoopM_settled (unv := unv) (full := full) (sfx := sfx) (t := t) (gs := gs₂)
     (fun g hg r hr => hs r (hreq g (hp.mem_iff.2 hg) r hr))
   refine ⟨?_, h1⟩
   rw [h1, h2, doneLoop_perm (hp.map _)]
 
 example : doneLoop [true, false, true] = doneLoop [false, true, true] := done_order_invariant (List.Perm.swap ..)
 
-example : doneLoopM id id [("b", "x/b")] [⟨[⟨"b", "x/b"⟩], true⟩, ⟨[], false⟩] =
-    doneLoopM id id [("b", "x/b")] [⟨[], false⟩, ⟨[⟨"b", "x/b"⟩], true⟩] := by decide
+example : doneLoopM id id (fun fp _ => fp) [("b", "x/b")] [⟨[⟨"b", "x/b"⟩], true⟩, ⟨[], false⟩] =
+    doneLoopM id id (fun fp _ => fp) [("b", "x/b")] [⟨[], false⟩, ⟨[⟨"b", "x/b"⟩], true⟩] := by decide
 
 /-! ### site 3: printer.WriteTo -/
 
 /-- The import table built by any sequence of NewImport calls with consistent package names has one alias
 per path (and distinct aliases), so `pathToQual` is a function. -/
-theorem import_table_one_alias_per_path {unv full nm : String → String} {rs : List Req} {t : Table}
-    {as : List String} (hc : ∀ r ∈ rs, Consistent unv nm r) (hrun : run unv full [] rs = some (t, as)) :
+theorem import_table_one_alias_per_path {unv full nm : String → String} {sfx : String → Nat → String} {rs : List Req} {t : Table}
+    {as : List String} (hc : ∀ r ∈ rs, Consistent unv nm r) (hrun : run unv full sfx [] rs = some (t, as)) :
     OneAliasPerPath t ∧ (keys t).Nodup := by
-  have hI := run_inv (inv_nil full nm) hc hrun
+  have hI := run_inv (inv_nil full nm sfx) hc hrun
   exact ⟨fun a b p ha hb => hI.vals_unique ha hb, hI.keysNodup⟩
 
 /-- The import block does not depend on the order in which `range p.imports` visits the table. -/
@@ -102,8 +102,8 @@ theorem writeTo_order_invariant {le : String → String → Bool}
     (trans : ∀ a b c, le a b = true → le b c = true → le a c = true)
     (total : ∀ a b, (le a b || le b a) = true)
     (antisymm : ∀ a b, le a b = true → le b a = true → a = b)
-    {unv full nm : String → String} {rs : List Req} {t visit₁ visit₂ : Table} {as : List String}
-    (hc : ∀ r ∈ rs, Consistent unv nm r) (hrun : run unv full [] rs = some (t, as))
+    {unv full nm : String → String} {sfx : String → Nat → String} {rs : List Req} {t visit₁ visit₂ : Table} {as : List String}
+    (hc : ∀ r ∈ rs, Consistent unv nm r) (hrun : run unv full sfx [] rs = some (t, as))
     (h₁ : t.Perm visit₁) (h₂ : t.Perm visit₂) :
     writeTo le visit₁ = writeTo le visit₂ := by
   have h1 := (import_table_one_alias_per_path hc hrun).1
@@ -124,16 +124,25 @@ visiting order. -/
 theorem pathToQual_order_witness :
     qualOf [("a", "p"), ("b", "p")] "p" ≠ qualOf [("b", "p"), ("a", "p")] "p" := by decide
 
-/-- alias collision → full-path alias (unv = id, full = a fixed renaming); the block is the same for both
-visiting orders of the resulting table -/
+/-- alias collision → full-path alias, and a taken full path → numbered alias (unv = id, full = a fixed
+renaming, numbered candidates spelled out); the block is the same for both visiting orders of the table -/
 def exFull (p : String) : String := if p = "y/b" then "y_b" else p
 def exNm (_ : String) : String := "b"
+def exSfx (fp : String) : Nat → String
+  | 0 => fp
+  | 1 => if fp = "y_b" then "y_b_2" else fp ++ "_2"
+  | _ => "?"
 
-example : run id exFull [] [⟨"b", "x/b"⟩, ⟨"b", "y/b"⟩, ⟨"b", "x/b"⟩] =
+example : run id exFull exSfx [] [⟨"b", "x/b"⟩, ⟨"b", "y/b"⟩, ⟨"b", "x/b"⟩] =
     some ([("b", "x/b"), ("y_b", "y/b")], ["b", "y_b", "b"]) := by decide
 
+/-- a package NAMED y_b was imported first: the full-path alias is taken, the numbered one is used (this was a
+Go panic before fix 81ad18a) -/
+example : run id exFull exSfx [] [⟨"y_b", "q/y_b"⟩, ⟨"b", "x/b"⟩, ⟨"b", "y/b"⟩] =
+    some ([("y_b", "q/y_b"), ("b", "x/b"), ("y_b_2", "y/b")], ["y_b", "b", "y_b_2"]) := by decide
+
 example : writeTo strLe [("b", "x/b"), ("y_b", "y/b")] = writeTo strLe [("y_b", "y/b"), ("b", "x/b")] :=
-  writeTo_order_invariant strLe_trans strLe_total strLe_antisymm (unv := id) (full := exFull) (nm := exNm)
+  writeTo_order_invariant strLe_trans strLe_total strLe_antisymm (unv := id) (full := exFull) (nm := exNm) (sfx := exSfx)
     (rs := [⟨"b", "x/b"⟩, ⟨"b", "y/b"⟩, ⟨"b", "x/b"⟩]) (as := ["b", "y_b", "b"])
     (by intro r hr; simp at hr; rcases hr with rfl | rfl | rfl <;> rfl) (by decide)
     (List.Perm.refl _) (List.Perm.swap ..)
